@@ -542,6 +542,12 @@ func main() {
 		runAndEmit(id, sc, []string{"corpus"})
 		id++
 	}
+	for _, role := range []string{"A", "I"} {
+		for _, buf := range []int{1, 4, 16} {
+			runStopDrains(id, role, buf)
+			id++
+		}
+	}
 	for i := 0; i < *n && hangs < 3; i++ { // three blocked sessions are evidence enough: do not wait for more
 		r := root.Fork()
 		sc, tags := genScenario(r)
